@@ -78,7 +78,7 @@ class Agg:        # tuple / array / struct / enum variant / closure with known f
 
 
 class Ref:        # reference / raw pointer to a place
-    def __init__(self, place): self.place = place
+    def __init__(self, place, mut=False): self.place = place; self.mut = mut
     def __repr__(self): return '&%r' % (self.place,)
 
 
@@ -294,22 +294,23 @@ SEQ_ELEM_CALLS = re.compile(r'^(world::)?ResourceId::new(_with_dynamic_id)?::<|^
 
 
 class Exec:
-    def __init__(self, fn, loop_bound=3, stats=None, param_values=None, leaf_summaries=False):
+    def __init__(self, fn, loop_bound=3, stats=None, param_values=None, leaf_summaries=False, frame=''):
         self.fn = fn
         self.leaf_summaries = leaf_summaries
+        self.frame = frame            # prefix of local place names (nested frames of inlined callees)
         self.loop_bound = loop_bound
         self.stats = stats if stats is not None else {'feasibility_queries': 0, 'solver_s': 0.0}
         self.param_values = param_values or {}
         self.params = {}
         for i, (loc, ty) in enumerate(fn.params):
-            self.params[loc] = self.param_values.get(loc) or T(z3.Const('p%d' % (i + 1), V))
+            self.params[self.frame + loc] = self.param_values.get(loc) or T(z3.Const('p%d' % (i + 1), V))
 
     # ---- places
     def parse_place(self, s, st):
         """Returns a Place for a MIR place expression."""
         s = s.strip()
         if re.match(r'^_\d+$', s):
-            return Place(('L', s))
+            return Place(('L', self.frame + s))
         if s.startswith('(') and s.endswith(')'):
             inner = s[1:-1]
             # (*X)
@@ -335,7 +336,7 @@ class Exec:
         m = re.match(r'^(.*)\[(_\d+)\]$', s)
         if m:
             base = self.parse_place(m.group(1), st)
-            idx = self.read(Place(('L', m.group(2))), st)
+            idx = self.read(Place(('L', self.frame + m.group(2))), st)
             return Place(base.base, base.path + (('I', to_term(idx)),))
         m = re.match(r'^(.*)\[(\d+) of (\d+)\]$', s)
         if m:
@@ -434,7 +435,7 @@ class Exec:
             return DiscV(v)
         m = re.match(r'^&(?:raw (?:const|mut) (?:\(fake\) )?|mut |fake (?:shallow|deep) )?(.*)$', rhs)
         if m and rhs.startswith('&'):
-            return Ref(self.parse_place(m.group(1), st))
+            return Ref(self.parse_place(m.group(1), st), rhs.startswith(('&mut ', '&raw mut ')))
         m = re.match(r'^([^ ].*?) as (.*) \((\w+(?:\(.*\))?)\)$', rhs)
         if m and '::' in m.group(1) and not rhs.startswith(('move ', 'copy ', 'const ', 'no_retag ', '&')):
             return Cst('fn ' + norm_callee(m.group(1)))
@@ -479,7 +480,7 @@ class Exec:
             for a in split_top(m.group(2) or ''):
                 n, v = a.split(': ', 1)
                 names.append(n.strip()); fields.append(self.operand(v, st))
-            return Agg('closure@' + re.sub(r':\d+: \d+:\d+$', '', re.sub(r'^\{closure@|\}$', '', m.group(1))), fields, None, names)
+            return Agg('closure@' + re.sub(r': \d+:\d+$', '', re.sub(r'^\{closure@|\}$', '', m.group(1))), fields, None, names)
         m = re.match(r'^([\w:<>\', &\[\];()+*-]+?) \{ (.*) \}$', rhs)
         if m:
             names, fields = [], []
@@ -567,18 +568,30 @@ class Exec:
         return None
 
     # ---- main loop
-    def run(self):
+    def rename_callee(self, callee):
+        return callee
+
+    def make_event(self, callee, argv, res, st):
+        return Event(callee, [to_term(x) for x in argv], res, argv)
+
+    def call_model(self, callee, argv, st, done):
+        """Hook for semantic models of callees (canonical mode): None = treat as an uninterpreted event;
+        otherwise a list of (state, value) continuations (value None = that path diverged and was recorded)."""
+        return None
+
+    def run(self, st0=None):
         fn = self.fn
         done = []
-        work = [(PathState(), 'bb0')]
+        work = [(st0 if st0 is not None else PathState(), 'bb0')]
         steps = 0
         while work:
             st, bb = work.pop()
             steps += 1
             if steps > 4000:
                 raise Unsupported('step bound exceeded in ' + fn.name)
-            st.visits[bb] = st.visits.get(bb, 0) + 1
-            if st.visits[bb] > self.loop_bound + 1:
+            vk = self.frame + bb
+            st.visits[vk] = st.visits.get(vk, 0) + 1
+            if st.visits[vk] > self.loop_bound + 1:
                 st.notes.append('loop bound %d reached at %s' % (self.loop_bound, bb))
                 done.append(Outcome('bound', None, st, bb))
                 continue
@@ -637,7 +650,7 @@ class Exec:
     def terminator(self, t, st, done):
         fn = self.fn
         if t == 'return':
-            done.append(Outcome('return', self.read(Place(('L', '_0')), st), st))
+            done.append(Outcome('return', self.read(Place(('L', self.frame + '_0')), st), st))
             return []
         if t in ('unreachable',) or t.startswith('resume') or t.startswith('terminate'):
             return []
@@ -696,16 +709,29 @@ class Exec:
                     depth -= 1
                     if depth == 0: break
                 j -= 1
-            callee, a = norm_callee(call[:j]), call[j + 1:-1]
+            callee, a = self.rename_callee(norm_callee(call[:j])), call[j + 1:-1]
             if callee.startswith(('move ', 'copy ')):
                 fv = self.operand(callee, st)
                 callee = 'indirect:' + str(to_term(fv))
             argv = [self.operand(x, st) for x in split_top(a)]
+            mm = re.match(r'^\[return: (bb\d+)', tail)
+            models = self.call_model(callee, argv, st, done)
+            if models is not None:
+                out = []
+                for st_i, val in models:
+                    if val is None:
+                        continue
+                    self.write(self.parse_place(dst, st_i), val, st_i)
+                    if mm:
+                        out.append((st_i, mm.group(1)))
+                    else:
+                        done.append(Outcome('diverge', None, st_i, callee))
+                return out
             r = self.intrinsic(callee, argv, st)
             if r is None:
                 res = fresh('ret')
                 r = T(res)
-                st.trace.append(Event(callee, [to_term(x) for x in argv], res, argv))
+                st.trace.append(self.make_event(callee, argv, res, st))
             self.write(self.parse_place(dst, st), r, st)
             mm = re.match(r'^\[return: (bb\d+)', tail)
             if mm:
